@@ -281,5 +281,10 @@ func (*treePipeline) handlePipelineErr(ctx context.Context, echs ...<-chan error
 	}
 	verifPoint("main.wait.pre", uint64(len(echs)), "")
 	defer verifPoint("main.wait.post", 0, "")
-	return eg.Wait()
+	if err := eg.Wait(); err != nil {
+		return err
+	}
+	// Every stage shut down without an error of its own. If that is because the caller's context was
+	// cancelled, the work was abandoned: report that instead of success.
+	return ctx.Err()
 }
